@@ -246,3 +246,17 @@ M("c05.unknown-language-keyerror", "C05", PAR, "                if language not 
 M("c05.error-line-is-zero-based", "C05", PAR, "            raise ParserError(msg, self.line, self.filename,\n                              line_text=line, reason=reason)", "            raise ParserError(msg, self.line - 1, self.filename,\n                              line_text=line, reason=reason)")
 M("c05.table-not-reset-on-reuse", "C05", PAR, "        self.lines = []\n        self.table = None\n        self.examples = None\n\n    def _parse_loop", "        self.lines = []\n        self.examples = None\n\n    def _parse_loop")
 M("c05.docstring-before-step-accepted", "C05", PAR, "            if not self.statement.steps:\n                raise ParserError(\"Multi-line text before any step\",\n                                  self.line, self.filename)", "            if not self.statement.steps:\n                return True")
+
+# ---- C06 -------------------------------------------------------------------
+M("c06.step-for-row-without-deepcopy", "C06", MOD, "        new_step = copy.deepcopy(outline_step)", "        new_step = copy.copy(outline_step)")
+M("c06.examples-tags-not-added", "C06", MOD, "        row_tags.extend(example.tags)\n", "")
+M("c06.scenario-line-from-examples", "C06", MOD, "        scenario_line = row.line\n", "        scenario_line = example.line\n")
+M("c06.table-headings-not-substituted", "C06", MOD, "                for i, cell in enumerate(new_step.table.headings):\n                    new_step.table.headings[i] = cell.replace(placeholder, value)\n", "")
+M("c06.modified-flag-never-rebuilt", "C06", MOD, "        needs_rebuild_scenarios = self._is_any_example_table_modified()", "        needs_rebuild_scenarios = not self._scenarios")
+M("c06.docstring-not-substituted", "C06", MOD, "        if new_step.text:\n            new_step.text = cls.render_template(new_step.text, row)", "        if False:\n            new_step.text = cls.render_template(new_step.text, row)")
+M("c06.row-id-zero-based", "C06", MOD, "                row.id = \"%d.%d\" % (example.index, row.index)", "                row.id = \"%d.%d\" % (example.index, row_index)")
+M("c06.examples-name-not-rendered", "C06", MOD, "        examples_name = self.render_template(example.name, row, params)", "        examples_name = example.name")
+M("c06.empty-cell-not-substituted", "C06", MOD, "                placeholder = u\"<%s>\" % name\n                text = text.replace(placeholder, value)", "                placeholder = u\"<%s>\" % name\n                if value:\n                    text = text.replace(placeholder, value)")
+M("c06.only-first-examples-block", "C06", MOD, "        for example_index, example in enumerate(scenario_outline.examples):\n            example.index = example_index+1",
+  "        for example_index, example in enumerate(scenario_outline.examples[:2]):\n            example.index = example_index+1")
+M("c06.remove-column-keeps-cells", "C06", MOD, "        for row in self.rows:\n            assert column_index < len(row.cells)\n            del row.cells[column_index]", "        for row in self.rows[:1]:\n            assert column_index < len(row.cells)\n            del row.cells[column_index]")
